@@ -22,7 +22,6 @@ package samplebuilder
 import (
 	"encoding/json"
 	"fmt"
-	"os"
 	"reflect"
 	"sort"
 	"sync"
@@ -293,20 +292,10 @@ func c31Run(c *vkit.Check, w *c31Worker, cs *c31Case, trace bool) {
 		}
 	}
 	high := -1 // highest position pushed so far
-	fine := os.Getenv("VERIF_C31_FINE") != ""
 	fail := func(kind, what string) {
 		failed = true
 		rc := *cs
 		rc.Trace = tr
-		if fine {
-			maxFrame := 0
-			for _, k := range cs.Sizes {
-				if k > maxFrame {
-					maxFrame = k
-				}
-			}
-			kind += fmt.Sprintf("|F|kind=%s|heads=%v|delay=%d|inorder=%v|mlGEframe=%v|pop=%d|marker=%v", cs.Kind, cs.AllHeads, cs.DelayMs, inOrder, int(cs.MaxLate) >= maxFrame, cs.Pop, cs.Marker)
-		}
 		c.Violation(kind, what+" — case "+vkit.Short(cs), rc)
 	}
 	// lateness of the latest push of position p: how far the stream had already advanced past it
